@@ -1532,3 +1532,163 @@ func TestVerifC17Consensus(t *testing.T) {
 }
 
 var _ = merkle.HashFromByteSlices
+
+// ---------------------------------------------------------------------------------------------
+// part "fullqueue": back-pressure. The queue between the reactor and the state machine holds 1000 messages; a peer can fill it with
+// well-formed messages. A connection routine that is then blocked handing over one more message is only waiting — it must not be
+// holding the consensus state's mutex while it waits, or the one routine that empties the queue (it takes that mutex for every
+// message) can never run again and the node is wedged by input that would not even cost the sender its connection.
+// For every node state x message type that is queued (Proposal, BlockPart, Vote): fill the queue, deliver the message on a
+// goroutine, wait until the goroutine listing shows it parked in the channel send, then try the write lock.
+
+func c17QueueSenderParked() bool {
+	buf := make([]byte, 1<<20)
+	for {
+		n := runtime.Stack(buf, true)
+		if n < len(buf) {
+			buf = buf[:n]
+			break
+		}
+		buf = make([]byte, 2*len(buf))
+	}
+	for _, g := range strings.Split(string(buf), "\n\n") {
+		if strings.Contains(g, "consensus.(*Reactor).ReceiveEnvelope") && strings.HasPrefix(g, "goroutine ") && strings.Contains(strings.SplitN(g, "\n", 2)[0], "[chan send") {
+			return true
+		}
+	}
+	return false
+}
+
+type c17QCase struct {
+	Node int     `json:"node"`
+	Msg  c17CMsg `json:"msg"`
+}
+
+func (e *c17Env) runFullQueue(c c17QCase) (key, what, inconcl string) {
+	tmrand.Seed(17)
+	n := e.newNode(c.Node)
+	defer n.stop()
+	peer := newC17Peer("flooding-peer")
+	n.conR.InitPeer(peer)
+	pre, _ := n.prefix(c17PeerNRS)
+	for _, m := range pre {
+		if p := n.receive(peer, m.Ch, n.build(m)); p != "" {
+			return "", "", "prefix message panicked: " + p
+		}
+	}
+	// the queue is full of well-formed messages nobody has handled yet
+	filler := msgInfo{Msg: &HasVoteMessage{Height: n.cs.Height, Round: 0, Type: tmproto.PrevoteType, Index: 0}, PeerID: peer.ID()}
+	for full := false; !full; {
+		select {
+		case n.cs.peerMsgQueue <- filler:
+		default:
+			full = true
+		}
+	}
+	bz := n.build(c.Msg)
+	done := make(chan string, 1)
+	go func() { done <- n.receive(peer, c.Msg.Ch, bz) }()
+	parked := false
+	deadline := time.Now().Add(20 * time.Second)
+	for time.Now().Before(deadline) {
+		select {
+		case p := <-done:
+			// refused or dropped before the queue (peer error, or not a queued message): nothing to judge
+			_ = p
+			return "", "", "not-queued"
+		default:
+		}
+		if c17QueueSenderParked() {
+			parked = true
+			break
+		}
+		time.Sleep(200 * time.Microsecond)
+	}
+	if !parked {
+		return "", "", "the delivering goroutine neither returned nor parked in the channel send within 20 s"
+	}
+	// the routine that empties the queue needs the write lock for every message
+	// (other routines of the reactor take the read lock for microseconds at a time — updateRoundStateRoutine every 100 µs — so one
+	// failed attempt proves nothing: the lock counts as held only if no attempt in 400 ms succeeds)
+	got := false
+	for i := 0; i < 4000 && !got; i++ {
+		if got = n.cs.mtx.TryLock(); got {
+			n.cs.mtx.Unlock()
+		} else {
+			time.Sleep(100 * time.Microsecond)
+		}
+	}
+	// let the sender go: make room
+	<-n.cs.peerMsgQueue
+	select {
+	case <-done:
+	case <-time.After(20 * time.Second):
+		return "", "", "the delivering goroutine did not finish after room was made"
+	}
+	if !got {
+		return "consensus/reactor.go:ReceiveEnvelope:state-mutex-held-while-blocked-on-the-full-message-queue:" + c.Msg.Type,
+			fmt.Sprintf("node state %s: with the peer message queue full, the connection routine delivering a %s is parked in the channel send and the consensus state's mutex cannot be write-locked: the routine that empties the queue is locked out (deadlock)", c17NodeNames[c.Node], c.Msg.Type), ""
+	}
+	return "", "", ""
+}
+
+func TestVerifC17FullQueue(t *testing.T) {
+	r := vr.Start("C17", "fullqueue", 60*time.Second, 5*time.Minute)
+	defer r.Finish()
+	r.Rule = "every node state x every message type the reactor queues for the state machine (Proposal, BlockPart, Vote), delivered while the queue is full: once the delivering goroutine is parked in the channel send (goroutine listing), the consensus state's mutex must be free (TryLock); a case = (node state, message type); non-trivial = all"
+	r.Assume("a goroutine shown as [chan send] inside Reactor.ReceiveEnvelope is the delivering one (nothing else calls the reactor in this harness)")
+	e := newC17Env()
+	defer e.cleanup()
+	var rc c17QCase
+	if rep, skip := r.ReplayCase(&rc); skip {
+		return
+	} else if rep {
+		r.Eval()
+		if k, w, _ := e.runFullQueue(rc); k != "" {
+			r.Violation(k, w, rc)
+		}
+		return
+	}
+	k := 0
+	for node := 0; node < c17NNodeStatesAll; node++ {
+		probe := e.newNode(node)
+		h := probe.cs.Height
+		pt := uint32(0)
+		if probe.cs.ProposalBlockParts != nil {
+			pt = probe.cs.ProposalBlockParts.Total()
+		}
+		probe.stop()
+		_ = pt
+		for _, m := range []c17CMsg{
+			{Type: "Proposal", Ch: DataChannel, H: h, R: 0, PolRound: -1, PType: 32, Total: 1, HashLen: 32, Sig: 0},
+			{Type: "BlockPart", Ch: DataChannel, H: h, R: 0, Index: 0, PartLen: 10, ProofTotal: 1, ProofIndex: 0},
+			{Type: "Vote", Ch: VoteChannel, H: h, R: 0, VType: 1, Index: int64(e.byzIdx), AddrLen: 20, Sig: 0, Total: 1, HashLen: 32},
+			{Type: "Vote", Ch: VoteChannel, H: h, R: 0, VType: 2, Index: int64(e.byzIdx), AddrLen: 20, Sig: 0, Total: 1, HashLen: 32},
+		} {
+			k++
+			if !r.Mine(k) {
+				continue
+			}
+			c := c17QCase{Node: node, Msg: m}
+			r.Eval()
+			r.NTCount(1)
+			key, what, inc := e.runFullQueue(c)
+			switch {
+			case key != "":
+				if k2, _, _ := e.runFullQueue(c); k2 != key {
+					r.Cap("a full-queue case did not reproduce its verdict")
+					continue
+				}
+				r.Outcome(key)
+				r.Violation(key, what, c)
+			case inc == "not-queued":
+				r.Outcome(m.Type + ":not-queued-in-this-state")
+			case inc != "":
+				r.Cap("fullqueue: " + inc)
+			default:
+				r.Outcome(m.Type + ":parked-without-the-mutex")
+			}
+		}
+	}
+	r.Bound = fmt.Sprintf("%d node states x 3 queued message types", c17NNodeStatesAll)
+}
